@@ -5,6 +5,7 @@ def showErr : Err → String
   | .indexError => "ERR IndexError"
   | .valueError => "ERR ValueError"
   | .tooLarge => "ERR TooLarge"
+  | .protocol => "bad-op"
 
 def prefs? (olz mch sp lis : String) : Option Prefs :=
   match decCps sp, decCps lis with
@@ -55,6 +56,23 @@ def ctoks? : List String → Option (List CTok)
     | some a, some l => some (a :: l)
     | _, _ => none
 
+def calcTok? (w : String) : Option CalcTok :=
+  if w == "S" then some .s else if w == "R" then some .rparen else if w == "[" then some .openNested
+  else if w == "]" then some .closeNested
+  else match w.splitOn ":" with
+    | ["F", h] => (decCps h).map CalcTok.func
+    | ["O", h] => (decCps h).map CalcTok.op
+    | [k, h] => match numType? k, decCps h with
+      | some t, some v => some (CalcTok.operand t v)
+      | _, _ => none
+    | _ => none
+
+def calcToks? : List String → Option (List CalcTok)
+  | [] => some []
+  | w :: t => match calcTok? w, calcToks? t with
+    | some a, some l => some (a :: l)
+    | _, _ => none
+
 def handle (line : String) : String :=
   match words line with
   | ["num", olz, mch, sp, lis, ty, tv] =>
@@ -92,6 +110,10 @@ def handle (line : String) : String :=
           match fmtColorFunc f64Ops p items with
           | .error e => showErr e
           | .ok text => "OK " ++ showRgba c ++ (if tie then " 1 " else " 0 ") ++ encCps text
+    | _, _ => "bad-op"
+  | "calc" :: olz :: mch :: sp :: lis :: toks =>
+    match prefs? olz mch sp lis, calcToks? toks with
+    | some p, some ts => exc (fmtCalc f64Ops p ts)
     | _, _ => "bad-op"
   | ["hashchan", tv] =>
     match decCps tv with
